@@ -35,7 +35,7 @@ Drop(s, n) == SubSeq(s, n + 1, Len(s))
 RECURSIVE SumSeq(_)
 SumSeq(s) == IF s = <<>> THEN 0 ELSE Head(s) + SumSeq(Tail(s))
 
-ErrClasses == {"none", "eof", "err", "ueof", "closed", "already", "noprogress", "other"}
+ErrClasses == {"none", "eof", "err", "ueof", "closed", "already", "noprogress", "cerr", "other"}
 
 (***************************************************************************)
 (* Section 1: scripted reader.                                             *)
@@ -45,12 +45,24 @@ ErrClasses == {"none", "eof", "err", "ueof", "closed", "already", "noprogress", 
 (* it; the terminal condition accompanies the last part of the last chunk  *)
 (* iff withData.  After the last chunk every Read returns (0, term):       *)
 (* sticky.  After Close every Read returns (0, "closed") like an           *)
-(* http body.                                                              *)
+(* http body.  Besides the sticky terminal condition a script may carry    *)
+(* one-shot conditions in the middle (conds, see below).                   *)
 (***************************************************************************)
+(* Optional script fields (absent = none): conds[i] in {"none","eof","err"}  *)
+(* is a ONE-SHOT condition returned together with the last part of chunk i  *)
+(* (alone if the chunk is empty) and never repeated: the next Read goes on  *)
+(* with chunk i+1.  closeErr: Close returns an error (the stream is closed  *)
+(* nevertheless).                                                           *)
+CondAt(sc, i) == IF "conds" \in DOMAIN sc THEN sc.conds[i] ELSE "none"
+CloseFails(sc) == IF "closeErr" \in DOMAIN sc THEN sc.closeErr ELSE FALSE
+
 WellFormedScript(sc) ==
   /\ SumSeq(sc.chunks) = Len(sc.content)
   /\ sc.term \in {"eof", "err"}
   /\ sc.withData => (Len(sc.chunks) > 0 /\ sc.chunks[Len(sc.chunks)] > 0)
+  /\ "conds" \in DOMAIN sc => /\ Len(sc.conds) = Len(sc.chunks)
+                               /\ \A i \in 1..Len(sc.conds) : sc.conds[i] \in {"none", "eof", "err"}
+                               /\ sc.withData => sc.conds[Len(sc.conds)] = "none"    \* one condition per Read
 
 RdInit == [pos |-> 1, inChunk |-> 0, off |-> 0, closed |-> FALSE, closes |-> 0, reads |-> 0]
 
@@ -64,12 +76,22 @@ RdRead(sc, rd, k) ==
            done == m = c
            last == rd.pos = Len(sc.chunks)
        IN [n |-> m, bytes |-> SubSeq(sc.content, rd.off + 1, rd.off + m),
-           err |-> IF done /\ last /\ sc.withData THEN sc.term ELSE "none",
+           err |-> IF done /\ last /\ sc.withData THEN sc.term
+                   ELSE IF done THEN CondAt(sc, rd.pos) ELSE "none",
            rd |-> [rd1 EXCEPT !.off = @ + m,
                               !.pos = IF done THEN @ + 1 ELSE @,
                               !.inChunk = IF done THEN 0 ELSE @ + m]]
 
 RdClose(rd) == [rd EXCEPT !.closed = TRUE, !.closes = @ + 1]
+
+(* the one-shot conditions of a script as the caller of the raw stream     *)
+(* meets them: <<[pos, kind]>>, pos = number of bytes delivered before     *)
+RECURSIVE CondListFrom(_, _, _)
+CondListFrom(sc, i, off) ==
+  IF i > Len(sc.chunks) THEN <<>>
+  ELSE LET o == off + sc.chunks[i] IN
+       (IF CondAt(sc, i) # "none" THEN <<[pos |-> o, kind |-> CondAt(sc, i)]>> ELSE <<>>) \o CondListFrom(sc, i + 1, o)
+CondList(sc) == CondListFrom(sc, 1, 0)
 
 Remaining(sc, rd) == Drop(sc.content, rd.off)
 
@@ -130,32 +152,48 @@ HasContent(sc, layers, rd, i) ==
           ELSE [b |-> FALSE, layers |-> [f.layers EXCEPT ![i].err = "none"], rd |-> f.rd]  \* Peek's readErr() consumes it
 
 (* peekingReader.Close on layer i -> [err, panic, layers, rd] *)
-RECURSIVE LayerClose(_, _, _)
-LayerClose(layers, rd, i) ==
-  IF i = 0 THEN [err |-> "none", panic |-> FALSE, layers |-> layers, rd |-> RdClose(rd)]
+RECURSIVE LayerClose(_, _, _, _)
+LayerClose(layers, rd, i, closeFails) ==
+  IF i = 0 THEN [err |-> IF closeFails THEN "cerr" ELSE "none", panic |-> FALSE, layers |-> layers, rd |-> RdClose(rd)]
   ELSE LET L == layers[i] IN
     IF L.kind = "nilpeek"
     THEN [err |-> "none", panic |-> ~NilCloseGuarded, layers |-> layers, rd |-> rd]
     ELSE IF L.closed THEN [err |-> "already", panic |-> FALSE, layers |-> layers, rd |-> rd]
-    ELSE LayerClose([layers EXCEPT ![i].closed = TRUE, ![i].buf = <<>>, ![i].err = "none"], rd, i - 1)
+    ELSE LayerClose([layers EXCEPT ![i].closed = TRUE, ![i].buf = <<>>, ![i].err = "none"], rd, i - 1, closeFails)
+         \* p.underlying = nil FIRST, then return p.orig.Close(): closed whatever the stream's Close returns
 
 (***************************************************************************)
 (* Section 4: the property C17 over the caller-visible history.            *)
-(*   p = [orig, term, declared, bodyNil, delivered, everClosed, probed,    *)
+(*   p = [orig, term, conds, declared, bodyNil, delivered, everClosed,     *)
+(*        probed,                                                          *)
 (*        rawCloses, wrapCloses, lastHas]                                  *)
 (*   a = [a |-> "has" | "read" | "close" | "drain", k]                     *)
 (*   o = [b, n, bytes, err, panic, uc, ur]   (uc/ur: Close/Read calls      *)
 (*        seen by the underlying stream so far)                            *)
 (***************************************************************************)
-AbsInit(content, term, declared, bodyNil) ==
-  [orig |-> content, term |-> term, declared |-> declared, bodyNil |-> bodyNil,
+AbsInit(sc, declared, bodyNil) ==
+  [orig |-> sc.content, term |-> sc.term, conds |-> CondList(sc), declared |-> declared, bodyNil |-> bodyNil,
    delivered |-> 0, everClosed |-> FALSE, probed |-> FALSE,
    rawCloses |-> 0, wrapCloses |-> 0, lastHas |-> <<>>]
 
-(* "at least one byte can be read" *)
-CanRead(p) == ~p.bodyNil /\ ~p.everClosed /\ p.delivered < Len(p.orig)
+(* The original = the bytes, interleaved with the conditions the raw stream *)
+(* reports: one-shot ones (p.conds, those not met yet) at their positions   *)
+(* and the sticky terminal one after the last byte.  The next condition:    *)
+Limit(p)    == IF p.conds # <<>> THEN p.conds[1].pos ELSE Len(p.orig)
+CondKind(p) == IF p.conds # <<>> THEN p.conds[1].kind ELSE p.term
+ConsumeCond(p) == IF p.conds # <<>> THEN Tail(p.conds) ELSE p.conds      \* a one-shot condition is met once
+
+(* "at least one byte can be read" (before the stream reports a condition) *)
+CanRead(p) == ~p.bodyNil /\ ~p.everClosed /\ p.delivered < Limit(p)
 
 HasAnswer(p) == p.declared = "pos" \/ (p.declared = "absent" /\ CanRead(p))
+
+(* PeekSwallowsCondition (named deviation, what bufio.Peek does): a probing *)
+(* HasBody issued exactly where a ONE-SHOT condition is due (all bytes      *)
+(* before it delivered) answers FALSE and uses that condition up - the      *)
+(* error Peek got is not kept.  A sticky condition is simply met again.     *)
+Swallows(p) == /\ p.declared = "absent" /\ ~p.bodyNil /\ ~p.everClosed
+               /\ p.conds # <<>> /\ p.conds[1].pos = p.delivered
 
 (* Close calls issued before any probe reach the stream directly (the      *)
 (* caller's own business); of the Close calls issued after a probe exactly *)
@@ -174,16 +212,16 @@ ReadOK(p, k, o) ==
   THEN /\ o.n = 0 /\ o.bytes = <<>>                    \* never stale data ...
        /\ (k > 0 => o.err # "none")                    \* ... and the read fails (ZeroLenReadAfterClose: k = 0 may return nil)
   ELSE /\ o.n <= k /\ o.n = Len(o.bytes)
-       /\ p.delivered + o.n <= Len(p.orig)
+       /\ p.delivered + o.n <= Limit(p)                                  \* never past a condition not reported yet
        /\ o.bytes = SubSeq(p.orig, p.delivered + 1, p.delivered + o.n)   \* next bytes, in order, nothing fabricated
-       /\ (o.err # "none" => /\ p.delivered + o.n = Len(p.orig)          \* nothing lost before the end ...
-                             /\ o.err = p.term)                           \* ... and the end is the original one
+       /\ (o.err # "none" => /\ p.delivered + o.n = Limit(p)            \* a condition is reported at its position ...
+                             /\ o.err = CondKind(p))                      \* ... and it is the original one
 
 (* drain = Read(k) repeated until an error is returned *)
 DrainOK(p, k, o) ==
   IF p.everClosed THEN o.n = 0 /\ o.bytes = <<>> /\ o.err # "none"
-  ELSE /\ o.bytes = Drop(p.orig, p.delivered)
-       /\ o.err = p.term
+  ELSE /\ o.bytes = SubSeq(p.orig, p.delivered + 1, Limit(p))
+       /\ o.err = CondKind(p)
 
 ObsAllowed(p, a, o) ==
   /\ ~o.panic
@@ -204,22 +242,25 @@ Why(p, a, o) ==
                            ELSE "hasbody-closed-the-stream"
          [] a.a = "read" -> IF o.uc # ExpectedCloses(p) THEN "close-count"
                             ELSE IF p.everClosed THEN "read-after-close"
-                            ELSE IF ~(o.n <= a.k /\ o.n = Len(o.bytes) /\ p.delivered + o.n <= Len(p.orig)
+                            ELSE IF ~(o.n <= a.k /\ o.n = Len(o.bytes) /\ p.delivered + o.n <= Limit(p)
                                       /\ o.bytes = SubSeq(p.orig, p.delivered + 1, p.delivered + o.n))
                                  THEN "bytes-lost-reordered-or-fabricated"
                             ELSE "terminal-condition"
          [] a.a = "drain" -> IF o.uc # ExpectedCloses(p) THEN "close-count"
                              ELSE IF p.everClosed THEN "read-after-close"
-                             ELSE IF o.bytes # Drop(p.orig, p.delivered) THEN "bytes-lost-reordered-or-fabricated"
+                             ELSE IF o.bytes # SubSeq(p.orig, p.delivered + 1, Limit(p)) THEN "bytes-lost-reordered-or-fabricated"
                              ELSE "terminal-condition"
          [] a.a = "close" -> "close-count"
          [] OTHER -> "unknown-action"
 
 AbsNext(p, a, o) ==
-  CASE a.a = "has"   -> [p EXCEPT !.lastHas = <<o.b>>,
+  CASE a.a = "has"   -> [p EXCEPT !.lastHas = IF Swallows(p) THEN <<>> ELSE <<o.b>>,   \* asking again may now differ
+                                  !.conds = IF Swallows(p) THEN Tail(@) ELSE @,
                                   !.probed = @ \/ p.declared = "absent"]
-    [] a.a = "read"  -> [p EXCEPT !.lastHas = <<>>, !.delivered = @ + o.n]
-    [] a.a = "drain" -> [p EXCEPT !.lastHas = <<>>, !.delivered = @ + Len(o.bytes)]
+    [] a.a = "read"  -> [p EXCEPT !.lastHas = <<>>, !.delivered = @ + o.n,
+                                  !.conds = IF ~p.everClosed /\ o.err # "none" THEN ConsumeCond(p) ELSE @]
+    [] a.a = "drain" -> [p EXCEPT !.lastHas = <<>>, !.delivered = @ + Len(o.bytes),
+                                  !.conds = IF ~p.everClosed /\ o.err # "none" THEN ConsumeCond(p) ELSE @]
     [] a.a = "close" -> [p EXCEPT !.lastHas = <<>>, !.everClosed = TRUE,
                                   !.rawCloses = IF p.probed THEN @ ELSE @ + 1,
                                   !.wrapCloses = IF p.probed THEN @ + 1 ELSE @]
@@ -238,7 +279,7 @@ NoObs == [b |-> FALSE, n |-> 0, bytes |-> <<>>, err |-> "none", panic |-> FALSE,
 
 InitState(sc, declared, bodyNil) ==
   [sc |-> sc, declared |-> declared, bodyNil |-> bodyNil, rd |-> RdInit, layers |-> <<>>,
-   p |-> AbsInit(sc.content, sc.term, declared, bodyNil), ret |-> NoObs, panicked |-> FALSE]
+   p |-> AbsInit(sc, declared, bodyNil), ret |-> NoObs, panicked |-> FALSE]
 
 Top(s) == Len(s.layers)
 
@@ -261,7 +302,7 @@ DoRead(s, k) ==
 
 (* r.Body.Close() *)
 DoClose(s) ==
-  LET r == LayerClose(s.layers, s.rd, Top(s))
+  LET r == LayerClose(s.layers, s.rd, Top(s), CloseFails(s.sc))
   IN [s EXCEPT !.layers = r.layers, !.rd = r.rd, !.panicked = r.panic,
                !.ret = Obs(FALSE, 0, <<>>, r.err, r.panic, r.rd)]
 
